@@ -56,6 +56,15 @@ type lookupCfg struct {
 	// are consumed by scheduler decisions, so the lookup loop can be held up
 	// publishing while further replies pile up behind it.
 	LazyEvents bool
+	// Present (optional hook, nil = records go out as the responder built
+	// them): called for every closer-peer record of every reply just before
+	// the reply is delivered, on the simulator goroutine; it may strip or
+	// replace the record's address list (it must not touch the identity).
+	Present func(responder *simnet.Peer, rec *pb.Message_Peer)
+	// SeedAddrs (optional hook, nil = all of the peer's addresses): the
+	// addresses of a seed peer the node's peerstore holds when the lookup
+	// begins (the peer goes into the routing table either way).
+	SeedAddrs func(p *simnet.Peer) []ma.Multiaddr
 	CancelAt          int // step at which the context is cancelled (0 = never)
 	FaultLevel        int // 0 none, 1 light, 2 heavy
 	Lies              bool
@@ -350,6 +359,9 @@ func (o *lookupObs) lookupActions() []sim.Action {
 							s.Count("fault_bad_addr_presentation")
 						}
 					}
+					if o.cfg.Present != nil {
+						o.cfg.Present(x, c)
+					}
 					var as []ma.Multiaddr
 					for _, b := range c.Addrs {
 						if a, err := ma.NewMultiaddrBytes(b); err == nil {
@@ -395,10 +407,23 @@ func runLookup(s *sim.Sim, c lookupCfg) *lookupObs {
 	if len(seeds) == 0 {
 		seeds = []*simnet.Peer{real[rng.Intn(len(real))]}
 	}
-	o.table = h.Seed(seeds)
 	o.seeded = map[peer.ID]bool{} // their true addresses went into the peerstore
-	for _, p := range seeds {
-		o.seeded[p.ID] = true
+	if c.SeedAddrs != nil {
+		recs := make([]*simnet.Peer, len(seeds))
+		for i, p := range seeds {
+			cp := *p
+			cp.Addrs = c.SeedAddrs(p)
+			recs[i] = &cp
+			if len(cp.Addrs) > 0 {
+				o.seeded[p.ID] = true
+			}
+		}
+		o.table = h.Seed(recs)
+	} else {
+		o.table = h.Seed(seeds)
+		for _, p := range seeds {
+			o.seeded[p.ID] = true
+		}
 	}
 	o.stampsPre = h.DHT.RoutingTable().GetTrackedCplsForRefresh()
 
